@@ -139,25 +139,40 @@ func TestZZReplay(t *testing.T) {
 	asg, _ := json.Marshal(map[string]interface{}{"assignment": rf.Assignment, "params": rf.Params})
 	asgFile := filepath.Join(tmp, "assign.json")
 	os.WriteFile(asgFile, asg, 0644)
-	cmd := exec.Command("go", "test", "-v", "-vet=off", "-count=1", "-overlay", ovFile, "-run", "^TestZZReplay$", "-timeout", "90s", rf.Package)
-	cmd.Dir = repo
-	cmd.Env = append(os.Environ(), "GOFLAGS=-mod=mod", "GOPROXY=off", "GOSUMDB=off", "GOTOOLCHAIN=local",
-		"ZZ_ASSIGN="+asgFile, "ZZ_HARNESS="+rf.Harness, "GOCACHE="+goCacheDir())
-	var buf bytes.Buffer
-	cmd.Stdout = &buf
-	cmd.Stderr = &buf
-	done := make(chan error, 1)
-	go func() { done <- cmd.Run() }()
-	select {
-	case <-done:
-	case <-time.After(5 * time.Minute):
-		if cmd.Process != nil {
-			cmd.Process.Kill()
+	// A counterexample found under the engine's cooperative scheduler (background
+	// goroutines run when the main one blocks) is replayed with one OS thread first,
+	// which is the closest native schedule; other schedules are tried before the
+	// counterexample is declared not reproducible.
+	var out string
+	for _, cpu := range []string{"1", "", "1"} {
+		args := []string{"test", "-v", "-vet=off", "-count=1", "-overlay", ovFile, "-run", "^TestZZReplay$", "-timeout", "90s"}
+		if cpu != "" {
+			args = append(args, "-cpu", cpu)
 		}
-		<-done
+		args = append(args, rf.Package)
+		cmd := exec.Command("go", args...)
+		cmd.Dir = repo
+		cmd.Env = append(os.Environ(), "GOFLAGS=-mod=mod", "GOPROXY=off", "GOSUMDB=off", "GOTOOLCHAIN=local",
+			"ZZ_ASSIGN="+asgFile, "ZZ_HARNESS="+rf.Harness, "GOCACHE="+goCacheDir())
+		var buf bytes.Buffer
+		cmd.Stdout = &buf
+		cmd.Stderr = &buf
+		done := make(chan error, 1)
+		go func() { done <- cmd.Run() }()
+		select {
+		case <-done:
+		case <-time.After(5 * time.Minute):
+			if cmd.Process != nil {
+				cmd.Process.Kill()
+			}
+			<-done
+		}
+		out = buf.String()
+		if replayMatches(rf, out) {
+			return true, out
+		}
 	}
-	out := buf.String()
-	return replayMatches(rf, out), out
+	return false, out
 }
 
 func goCacheDir() string {
@@ -225,6 +240,27 @@ func rewriteRedirects(repo, harnessPkg string, tbl map[string]string, ov map[str
 		dir := filepath.Join(repo, strings.TrimPrefix(strings.TrimPrefix(r.pkgPath, modulePrefix), "/"))
 		byDir[dir] = append(byDir[dir], r)
 	}
+	inits := map[string][][3]string{} // stub package -> (callee package, hook variable, stub)
+	defer func() {
+		for tgt, list := range inits {
+			dir := filepath.Join(repo, strings.TrimPrefix(strings.TrimPrefix(tgt, modulePrefix), "/"))
+			var b strings.Builder
+			fmt.Fprintf(&b, "package %s\n\n", pkgNameOfDir(dir, ov))
+			al := map[string]string{}
+			for _, x := range list {
+				if _, ok := al[x[0]]; !ok {
+					al[x[0]] = fmt.Sprintf("zzhook%d", len(al))
+					fmt.Fprintf(&b, "import %s %q\n", al[x[0]], x[0])
+				}
+			}
+			b.WriteString("\nfunc init() {\n")
+			for _, x := range list {
+				fmt.Fprintf(&b, "\t%s.%s = %s\n", al[x[0]], x[1], x[2])
+			}
+			b.WriteString("}\n")
+			ov[filepath.Join(dir, "zz_verif_redir_init.go")] = []byte(b.String())
+		}
+	}()
 	for dir, list := range byDir {
 		ents, err := os.ReadDir(dir)
 		if err != nil {
@@ -302,7 +338,22 @@ func rewriteRedirects(repo, harnessPkg string, tbl map[string]string, ov map[str
 					fwd := &ast.FuncDecl{Recv: fd.Recv, Name: ast.NewIdent(r.name), Type: fd.Type}
 					format.Node(&sig, fset, fwd)
 					callee := r.tgtName
-					if r.tgtPkg != r.pkgPath {
+					if r.tgtPkg != r.pkgPath && pkgImports(repo, ov, r.tgtPkg, r.pkgPath, map[string]bool{}) {
+						// the stub's package imports this one: importing it back would be a
+						// cycle, so the forwarder goes through a function variable that the
+						// stub's package sets from an init function
+						hook := "ZZRedir_" + r.recv + "_" + r.name
+						ft := &ast.FuncType{Params: &ast.FieldList{}, Results: fd.Type.Results}
+						if fd.Recv != nil {
+							ft.Params.List = append(ft.Params.List, fd.Recv.List[0])
+						}
+						ft.Params.List = append(ft.Params.List, fd.Type.Params.List...)
+						var tb bytes.Buffer
+						format.Node(&tb, fset, ft)
+						fmt.Fprintf(&extra, "\nvar %s %s\n", hook, tb.String())
+						inits[r.tgtPkg] = append(inits[r.tgtPkg], [3]string{r.pkgPath, hook, r.tgtName})
+						callee = hook
+					} else if r.tgtPkg != r.pkgPath {
 						alias := "zzredir" + sanitize(filepath.Base(r.tgtPkg))
 						imports[alias] = r.tgtPkg
 						callee = alias + "." + r.tgtName
@@ -344,4 +395,62 @@ func rewriteRedirects(repo, harnessPkg string, tbl map[string]string, ov map[str
 		}
 	}
 	return nil
+}
+
+// dirFiles lists the non-test Go sources of a module package directory: files on
+// disk plus overlay files, overlay contents winning.
+func dirFiles(dir string, ov map[string][]byte) map[string][]byte {
+	out := map[string][]byte{}
+	if ents, err := os.ReadDir(dir); err == nil {
+		for _, ent := range ents {
+			if ent.IsDir() || !strings.HasSuffix(ent.Name(), ".go") || strings.HasSuffix(ent.Name(), "_test.go") {
+				continue
+			}
+			p := filepath.Join(dir, ent.Name())
+			if b, err := os.ReadFile(p); err == nil {
+				out[p] = b
+			}
+		}
+	}
+	for p, b := range ov {
+		if filepath.Dir(p) == dir && strings.HasSuffix(p, ".go") && !strings.HasSuffix(p, "_test.go") {
+			out[p] = b
+		}
+	}
+	return out
+}
+
+func pkgNameOfDir(dir string, ov map[string][]byte) string {
+	for p, b := range dirFiles(dir, ov) {
+		f, err := parser.ParseFile(token.NewFileSet(), p, b, parser.PackageClauseOnly)
+		if err == nil {
+			return f.Name.Name
+		}
+	}
+	return filepath.Base(dir)
+}
+
+// pkgImports: does module package from import module package to (transitively)?
+func pkgImports(repo string, ov map[string][]byte, from, to string, seen map[string]bool) bool {
+	if from == to {
+		return true
+	}
+	if seen[from] || !strings.HasPrefix(from, modulePrefix) {
+		return false
+	}
+	seen[from] = true
+	dir := filepath.Join(repo, strings.TrimPrefix(strings.TrimPrefix(from, modulePrefix), "/"))
+	for p, b := range dirFiles(dir, ov) {
+		f, err := parser.ParseFile(token.NewFileSet(), p, b, parser.ImportsOnly)
+		if err != nil {
+			continue
+		}
+		for _, im := range f.Imports {
+			ip := strings.Trim(im.Path.Value, "\"")
+			if ip == to || pkgImports(repo, ov, ip, to, seen) {
+				return true
+			}
+		}
+	}
+	return false
 }
